@@ -87,7 +87,7 @@ func gen(g *hx.Gen) {
 		}
 		for _, gr := range gx.IsoClasses(n) {
 			emit(gr, nv)
-			if n <= 6 || (n == 7 && (g.Thorough() || r.Chance(1, 2))) {
+			if n <= 6 || (n == 7 && (g.Thorough() || r.Chance(1, 3))) {
 				emitRelabelled(gr, 3)
 			}
 		}
@@ -117,6 +117,7 @@ func gen(g *hx.Gen) {
 	emitRelabelled(gx.Multipartite([]int{2, 5}), 4)
 
 	genBig(g)
+	genHuge(g)
 
 	maxN := g.Pick(10, 11)
 	count := g.Pick(900, 14000)
